@@ -93,8 +93,8 @@ type mvb struct {
 	ended     bool // finally ended (no reopen follows)
 	reopens   int
 	uuid      uint64 // branch of the open stream (first failover entry at the time of the request)
-	dirtyGen  int // incremented whenever an acknowledgement / non-document event advances the vBucket
-	savedGen  int // dirtyGen covered by the last successful save
+	dirtyGen  int    // incremented whenever an acknowledgement / non-document event advances the vBucket
+	savedGen  int    // dirtyGen covered by the last successful save
 }
 
 type hViolation struct {
@@ -103,26 +103,26 @@ type hViolation struct {
 }
 
 type session struct {
-	sc     *hScenario
-	cfg    *config.Dcp
-	cl     *fakeClient
-	meta   *fakeMeta
-	cons   *fakeConsumer
-	disc   *fakeDiscovery
-	discI  stream.VBucketDiscovery // optional: a real discovery object instead of the fake (C16)
-	metaI  metadata.Metadata       // optional: a real backend (file) instead of the fake store
-	saved  map[uint16]ckTuple      // file backend model: what the last save wrote (whole state)
+	sc         *hScenario
+	cfg        *config.Dcp
+	cl         *fakeClient
+	meta       *fakeMeta
+	cons       *fakeConsumer
+	disc       *fakeDiscovery
+	discI      stream.VBucketDiscovery     // optional: a real discovery object instead of the fake (C16)
+	metaI      metadata.Metadata           // optional: a real backend (file) instead of the fake store
+	saved      map[uint16]ckTuple          // file backend model: what the last save wrote (whole state)
 	ever       map[uint16]map[ckTuple]bool // every event / start position of a vBucket, across sessions
 	failedOver map[uint16]bool
 	nFailover  int
 	sessions   int
-	fpath  string
-	hand   *fakeHandler
-	st     stream.Stream
-	stopCh chan struct{}
-	srv    map[uint16]*srvVb
-	vbs    map[uint16]*mvb
-	step   int
+	fpath      string
+	hand       *fakeHandler
+	st         stream.Stream
+	stopCh     chan struct{}
+	srv        map[uint16]*srvVb
+	vbs        map[uint16]*mvb
+	step       int
 	// in-flight save
 	saveDone       chan struct{}
 	inflight       *saveCall
@@ -417,6 +417,12 @@ func (s *session) end(op hOp) {
 				s.fail("C12", "vb %d: reopened from seq %d, latest settled position is %d", m.vb, got.Seq, m.maxSettle)
 			} else if !m.tuples[got] {
 				s.fail("C12", "vb %d: reopened from %+v which is not the position of any settled event", m.vb, got)
+			}
+			if !m.tuples[got] {
+				s.fail("C06", "vb %d: stream re-requested from %+v, which is not the position of any event of this vBucket (a mixture of two positions / branches)", m.vb, got)
+			}
+			if s.failedOver[m.vb] {
+				s.label("reopen_after_failover")
 			}
 			// the server resumes after the requested position: everything above it is sent again
 			sv := s.srv[m.vb]
@@ -729,7 +735,9 @@ func (s *session) deliver(op hOp) {
 	} else if op.Out && fresh && s.oracles["C06"] {
 		// invalid server: the event lies beyond the announced snapshot (or before any marker)
 		s.label("outside_snapshot")
-		if m.snapValid && e.Seq <= m.snap[1] {
+		// (after a reopen the observer object - and the last snapshot it was told - lives on: "outside" means beyond
+		// every snapshot announced to it in this session)
+		if (m.snapValid || m.markers > 0) && e.Seq <= m.snap[1] {
 			e.Seq = m.snap[1] + 1 + uint64(op.Gap)
 			sv.hist[len(sv.hist)-1].Seq = e.Seq
 		}
@@ -1076,6 +1084,25 @@ func (s *session) save(op hOp) {
 			return
 		}
 		if flagged {
+			// C05 on the whole-state backend: after a save that happened, the furthest position settled by an
+			// acknowledgement / non-document event on ANY vBucket of the session is in the store (read back from the file)
+			if st, _, err := metadata.NewFSMetadata(s.cfg).Load(nil, ""); err == nil && st != nil {
+				for vb, m := range s.vbs {
+					if !m.dAdvanced {
+						continue
+					}
+					doc, ok := st.Load(vb)
+					switch {
+					case !ok || doc == nil || doc.Checkpoint == nil:
+						s.fail("C05", "vb %d: after a successful save the store (file backend) holds no checkpoint for it, furthest settled position is %d", vb, m.dSeq)
+					case doc.Checkpoint.SeqNo < m.dSeq:
+						s.fail("C05", "vb %d: after a successful save the store (file backend) holds seq %d, furthest settled position is %d", vb, doc.Checkpoint.SeqNo, m.dSeq)
+					case doc.Checkpoint.SeqNo > m.maxSettle:
+						s.fail("C05", "vb %d: the store (file backend) holds seq %d, beyond anything settled (%d)", vb, doc.Checkpoint.SeqNo, m.maxSettle)
+					}
+				}
+				s.label("file_store_read_back")
+			}
 			for vb, m := range s.vbs {
 				s.saved[vb] = m.maxTuple
 				m.savedGen = m.dirtyGen
@@ -1301,11 +1328,32 @@ func (s *session) crash(op hOp) {
 	// (manual checkpointing: closing writes nothing to the durable store)
 	old := s.vbs
 	within(20*time.Second, func() { s.st.Close(false) })
+	// autoReset "latest": a group without any stored checkpoint starts from the server's current end by definition
+	// (there is no durable checkpoint to be ahead of anything); as soon as one document of the assignment exists,
+	// a vBucket without a document starts from the beginning
+	anyDoc := false
+	for vb := range s.meta.snapshot() {
+		if int(vb) >= s.lo && int(vb) <= s.hi {
+			anyDoc = true
+		}
+	}
+	if s.metaI != nil {
+		anyDoc = len(s.saved) > 0
+	}
 	s.open()
 	for vb, u := range first {
 		m := s.vbs[vb]
 		if m == nil {
 			continue
+		}
+		if s.sc.Reset == "latest" && !anyDoc {
+			s.label("restart_latest_without_checkpoint")
+			continue
+		}
+		if s.sc.Reset == "latest" {
+			if _, has := s.meta.snapshot()[vb]; !has && s.metaI == nil {
+				s.label("restart_latest_partial_checkpoints")
+			}
 		}
 		if m.resume.Seq >= u.seq {
 			s.fail("C01", "vb %d: after the crash the stream is requested from seq %d, but event seq %d was delivered and never acknowledged (settled before crash: %v) - it is skipped", vb, m.resume.Seq, u.seq, settledSeqs(old[vb].settled))
